@@ -11,7 +11,7 @@ RULE = ('random objects x query points (inside, outside, beyond ends, on the obj
         'orthogonal projection and 200 samples along the object; non-trivial = query not on the object; distinct by '
         '(family, clamp region / arc region)')
 ASSUMPTIONS = ['segment pairs for the segment-to-segment routines do not cross (as documented)',
-               'pole of inaccessibility is checked one-sidedly against a 400 point interior search, precision 0.01']
+               'pole of inaccessibility is checked one-sidedly against an independent branch-and-bound search (1e-3) whose best point is measured exactly, precision 0.01']
 TRUSTED = ['theorems are in squared-distance form; sqrt monotone and non-negative is the only fact needed to transfer them']
 
 
@@ -244,19 +244,58 @@ def fam_pole(ctx, rng):
         ctx.violation(fam + ':outside', 'pole %r is not an interior point' % (pole,), desc)
         return
     dp = math.sqrt(float(X.sqdist_to_boundary(f, g)))
-    xs = [p[0] for p in pts]; ys = [p[1] for p in pts]
-    best = 0.0
-    for _ in range(400):
-        c = (rng.uniform(min(xs), max(xs)), rng.uniform(min(ys), max(ys)))
-        fc = X.fpt(c)
-        if X.winding_inside(f, fc):
-            best = max(best, math.sqrt(float(X.sqdist_to_boundary(f, fc))))
+    # independent branch and bound (floats, true half-diagonal bound) to 1e-3; its best point is then measured exactly
+    cand = best_interior_point(pts, 1e-3)
+    fc = X.fpt(cand)
+    best = math.sqrt(float(X.sqdist_to_boundary(f, fc))) if X.winding_inside(f, fc) else 0.0
     if dp < best - prec - 1e-9:
-        ctx.violation(fam + ':not_optimal', 'pole clearance %r but an interior point with clearance %r exists (precision %r)' % (
-            dp, best, prec), desc)
+        ctx.violation(fam + ':not_optimal', 'pole clearance %r but the interior point %r has clearance %r (precision %r)' % (
+            dp, cand, best, prec), desc)
 
 
-FAMILIES = [(fam_lines, 80), (fam_seg_seg, 30), (fam_arc, 40), (fam_plane, 25), (fam_polygon, 30), (fam_pole, 6)]
+def best_interior_point(pts, eps):
+    import heapq
+    n = len(pts)
+    def sd(x, y):
+        # signed distance to the polygon: positive inside
+        inside = False; best = float('inf')
+        for i in range(n):
+            ax, ay = pts[i - 1]; bx, by = pts[i]
+            if (ay > y) != (by > y) and x < (bx - ax) * (y - ay) / (by - ay) + ax:
+                inside = not inside
+            dx, dy = bx - ax, by - ay
+            t = ((x - ax) * dx + (y - ay) * dy) / (dx * dx + dy * dy)
+            t = 0.0 if t < 0 else (1.0 if t > 1 else t)
+            d = math.hypot(x - ax - t * dx, y - ay - t * dy)
+            best = min(best, d)
+        return best if inside else -best
+    xs = [p[0] for p in pts]; ys = [p[1] for p in pts]
+    x0, x1, y0, y1 = min(xs), max(xs), min(ys), max(ys)
+    size = min(x1 - x0, y1 - y0); h = size / 2
+    best = (-1.0, (0.0, 0.0)); heap = []; k = 0
+    x = x0
+    while x < x1:
+        y = y0
+        while y < y1:
+            d = sd(x + h, y + h); k += 1
+            heapq.heappush(heap, (-(d + h * math.sqrt(2)), k, x + h, y + h, h, d))
+            y += size
+        x += size
+    while heap:
+        nb, _, cx, cy, ch, d = heapq.heappop(heap)
+        if d > best[0]:
+            best = (d, (cx, cy))
+        if -nb - best[0] <= eps:
+            continue
+        hh = ch / 2
+        for ddx in (-hh, hh):
+            for ddy in (-hh, hh):
+                dd = sd(cx + ddx, cy + ddy); k += 1
+                heapq.heappush(heap, (-(dd + hh * math.sqrt(2)), k, cx + ddx, cy + ddy, hh, dd))
+    return best[1]
+
+
+FAMILIES = [(fam_lines, 80), (fam_seg_seg, 30), (fam_arc, 40), (fam_plane, 25), (fam_polygon, 30), (fam_pole, 40)]
 
 
 def explore(ctx):
